@@ -30,6 +30,7 @@ fn space_for(tier: Tier) -> (Space, usize) {
             s.ast("K", 4, 32).ast("Q", 3, 32).ast("CL", 3, 32);
             s.ast_range("ALT", 1, 4, 16, 3).ast_range("LP", 1, 4, 16, 5).ast_range("FX", 1, 4, 16, 6);
             s.ast_range("ALTS", 1, 4, 16, 4).ast_range("SEQO", 1, 5, 16, 4);
+            s.ast_range("K", 5, 5, 128, 203).ast_range("CL", 4, 4, 64, 203).ast_range("KL", 1, 3, 8, 207);
             (s, 4)
         }
     }
@@ -273,7 +274,9 @@ impl Check for C20 {
             _ => unreachable!(),
         };
         let sc = gen::scope(scope);
-        let maxlen = if seg.param > 0 { seg.param } else { maxlen };
+        // layer parameter: input-length bound + 100 * restriction (see C01)
+        let restriction = seg.param / 100;
+        let maxlen = if seg.param % 100 > 0 { seg.param % 100 } else { maxlen };
         let inputs = all_strings(&sc.sigma, maxlen);
         let inputs_c: Vec<Vec<char>> = inputs.iter().map(|s| s.chars().collect()).collect();
         for idx in lo..hi {
@@ -283,6 +286,10 @@ impl Check for C20 {
                 Some(p) => p,
                 None => continue,
             };
+            if (restriction >= 1 && parsed.ast.has_nullable_loop()) || (restriction >= 2 && parsed.ast.quant_depth() >= 2) {
+                out.inc("restricted_layer_skipped");
+                continue;
+            }
             let mut subs = vec![];
             subtrees(&g, &mut subs);
             let mut pairs: Vec<(usize, Rewrite, String)> = vec![];
